@@ -755,7 +755,27 @@ func c13cid(r *rand.Rand, k *mon.Case, n int, light bool) *c13spec {
 	}
 	// GID -> CID
 	f.GIDToCID = make([]cid.CID, n)
-	switch r.IntN(4) {
+	switch r.IntN(5) {
+	case 4: // a run that ends at the largest CID there is, ascending runs below it
+		l := min(n-1, []int{1, 2, 3, 2 + r.IntN(20), 257 + r.IntN(100)}[r.IntN(5)])
+		next := 1
+		for i := 1; i < n-l; i++ {
+			if r.IntN(3) == 0 {
+				next += 1 + r.IntN(40)
+			}
+			f.GIDToCID[i] = cid.CID(next)
+			next++
+		}
+		for j := 0; j < l; j++ {
+			f.GIDToCID[n-l+j] = cid.CID(65535 - l + 1 + j)
+		}
+		if next > 65535-l {
+			for i := range f.GIDToCID {
+				f.GIDToCID[i] = cid.CID(i)
+			}
+		} else if l >= 2 {
+			k.Class("gen:cid-run-ends-at-65535")
+		}
 	case 0: // identity
 		for i := range f.GIDToCID {
 			f.GIDToCID[i] = cid.CID(i)
@@ -1608,7 +1628,7 @@ func runC13(c *mon.Ctx) {
 		})
 	}
 
-	req := []string{"glyphs:65535", "charset-format:0", "charset-format:1", "charset-format:2", "encoding:predefined-standard", "encoding:predefined-expert",
+	req := []string{"gen:cid-run-ends-at-65535", "glyphs:65535", "charset-format:0", "charset-format:1", "charset-format:2", "encoding:predefined-standard", "encoding:predefined-expert",
 		"encoding:format-0", "encoding:format-1", "gen:encoding-partial-standard", "encoding:format-0+supplement", "encoding:format-1+supplement", "encoding:ranges=1", "encoding:ranges>=100",
 		"fdselect-format:0", "fdselect-format:3", "index-offsize:1", "index-offsize:2", "index-offsize:3",
 		"index-last-offset:255", "index-last-offset:256", "index-last-offset:257", "index-last-offset:65535", "index-last-offset:65536", "index-last-offset:65537",
